@@ -3,6 +3,7 @@
 //! `<stream>.impl` files plus `<stream>.stats.json`.  `kvh replay <stream> <case>` runs one case.
 mod s_body;
 mod s_conn;
+mod s_connexp;
 mod s_date;
 mod s_headers;
 mod s_parse;
@@ -29,6 +30,7 @@ fn main() {
             "body" => s_body::run(&a[3]),
             "conn" => s_conn::run(&a[3]),
             "readloop" => s_conn::run_readloop(&a[3]),
+            "conn05" | "conn07" | "conn09" | "conn10" => s_conn::run(&a[3]),
             "clientread" => s_conn::run_clientread(&a[3]),
             "prefix" => s_parse::run_prefix(&a[3]),
             "grammar" => s_parse::run_grammar(&a[3]),
@@ -52,6 +54,10 @@ fn main() {
         "parse" => s_parse::gen_parse(&ctx),
         "body" => s_body::gen(&ctx),
         "readloop" => s_conn::gen_readloop(&ctx),
+        "conn05" => s_connexp::gen05(&ctx),
+        "conn07" => s_connexp::gen07(&ctx),
+        "conn09" => s_connexp::gen09(&ctx),
+        "conn10" => s_connexp::gen10(&ctx),
         "clientread" => s_conn::gen_clientread(&ctx),
         "prefix" => s_parse::gen_prefix(&ctx),
         "grammar" => s_parse::gen_grammar(&ctx),
